@@ -1,5 +1,117 @@
-"""Per-property additions to the Verus verdict: Kani companions, native replays (C14)."""
+"""Per-property additions to the Verus verdict of lib/check.py: generated lemma files (C17 tables),
+Kani companions, native replays."""
+import hashlib
+import json
+import os
+import shutil
+import tempfile
+import time
+
+import runner
+from assemble import Undecided, VERIF
+
+
+def _add_obligations(ev, obls):
+    cov = ev["coverage"]
+    cov.setdefault("obligation_list", []).extend(obls)
+    cov["obligations"] = cov.get("obligations", 0) + len(obls)
+    cov["discharged"] = cov.get("discharged", 0) + len([o for o in obls if o["discharged"]])
+
+
+def c17_tables(repo, status, lines, ev):
+    import permission_tables as pt
+    t0 = time.time()
+    an = pt.analyse(repo)
+    text = pt.emit_verus(an)
+    scratch = tempfile.mkdtemp(prefix="vx_C17t_")
+    try:
+        p, wall, cmd = runner.run_verus(text, "vx_permission_tables", scratch)
+        res = runner.analyse(p, wall, cmd, text, "vx_permission_tables")
+    finally:
+        shutil.rmtree(scratch, ignore_errors=True)
+    if res.undecided:
+        lines.append("UNDECIDED: permission tables: " + res.undecided[:800])
+        return (2 if status == 0 else status), lines, ev
+    want = ["lemma_L1_visitor_read_only", "lemma_L2_developer_no_user_no_transfer", "lemma_L3_role_order_on_registered_routes", "lemma_tables_nonempty"]
+    obls = []
+    for w in want:
+        d = res.funcs.get(w)
+        if d is None:
+            lines.append("UNDECIDED: permission tables: lemma %s was not generated" % w)
+            return (2 if status == 0 else status), lines, ev
+        obls.append({"name": "permission_tables/" + w, "engine": "verus", "backend": "z3 (Verus SMT encoding)", "mode": "proof",
+                     "ms": round(d["ms"], 1), "rlimit": d["rlimit"], "discharged": bool(d["success"])})
+    _add_obligations(ev, obls)
+    cov = ev["coverage"]
+    cov["checker_cmd"] = cov.get("checker_cmd", "") + " ; " + res.cmd
+    cov.setdefault("table_data", {})
+    cov["table_data"] = {"visitor_entries": len(an["tables"][2]), "developer_entries": len(an["tables"][1]), "manager_entries": len(an["tables"][0]),
+                         "registered_routes": len(an["routes"]), "interned_strings": len(an["strings"]),
+                         "extraction": "regex over comment-stripped lazy_static text (T6); strings interned to integers, distinctness checked"}
+    cov.setdefault("trusted_base", []).append("[permission_tables] role_table(i) := union of the R::Path literals of the M_* modules listed in the R_* initialiser, read from the lazy_static! text (T6); that the real constructors compute exactly this union is proved in unit permission (ModuleResource::new == path_set_of, GroupResource::new == union_paths)")
+    cov["trusted_base"].append("[permission_tables] classification of 'login/self-service', 'user management' and 'transfer' paths is taken from the property statement (lib/permission_tables.py)")
+    failing = [o for o in obls if not o["discharged"]]
+    for o in failing:
+        key = o["name"].split("lemma_")[1][:2]
+        offenders = an["bad"].get(key, [])
+        os.makedirs(os.path.join(VERIF, "replays"), exist_ok=True)
+        h = hashlib.sha256(json.dumps(offenders, sort_keys=True).encode()).hexdigest()[:10]
+        path = os.path.join(VERIF, "replays", "C17-permission_tables-%s-%s.json" % (key, h))
+        replay_note = "no-failing-input-found"
+        native = None
+        if offenders:
+            native = native_c17(repo, key, offenders)
+            if native and native.get("reproduced"):
+                replay_note = ""
+        json.dump({"property": "C17", "unit": "permission_tables", "failed_obligation": o["name"],
+                   "failing_inputs": offenders, "native_replay": native,
+                   "verifier_output": "\n\n".join(e["text"] for e in res.errors),
+                   "how_to_replay": "cd /verif && ./check C17 --replay " + path}, open(path, "w"), indent=1)
+        lines.append("obligation failed: %s — offending table entries: %s" % (o["name"], json.dumps(offenders[:3])))
+        lines.append(("VIOLATION property=C17 replay=%s %s" % (path, replay_note)).rstrip())
+        ev["violations"] = ev.get("violations", 0) + 1
+        status = 1
+    return status, lines, ev
+
+
+def native_c17(repo, key, offenders):
+    """replay the verifier's counterexample against the real UserRole::match_url_by_roles"""
+    import native
+    tests = []
+    for i, o in enumerate(offenders[:5]):
+        p, m = o["path"].replace("*", ""), o["method"].replace("*", "POST")
+        if key == "L1":
+            tests.append('    assert!(!UserRole::match_url_by_roles(&vec![Arc::new("2".to_string())], "%s", "%s"), "visitor is granted %s %s");' % (p, m, m, p))
+        elif key == "L2":
+            tests.append('    assert!(!UserRole::match_url_by_roles(&vec![Arc::new("1".to_string())], "%s", "%s"), "developer is granted %s %s");' % (p, m, m, p))
+        else:
+            lo, hi = ("2", "1") if "visitor may" in o["why"] else ("1", "0")
+            tests.append('    assert!(!UserRole::match_url_by_roles(&vec![Arc::new("%s".to_string())], "%s", "%s") || UserRole::match_url_by_roles(&vec![Arc::new("%s".to_string())], "%s", "%s"), "role %s may %s %s but role %s may not");'
+                         % (lo, p, m, hi, p, m, lo, m, p, hi))
+    d = tempfile.mkdtemp(prefix="vx_c17replay_")
+    try:
+        f = os.path.join(d, "replay.rs")
+        open(f, "w").write("use super::*;\n#[test]\nfn vx_c17_replay() {\n" + "\n".join(tests) + "\n}\n")
+        try:
+            rc, out = native.run_native([("src/user/permission.rs", f)], "vx_c17_replay", repo=_repo_root(repo))
+        except Exception as e:
+            return {"reproduced": False, "error": str(e)[:500]}
+        return {"reproduced": rc != 0 and "panicked" in out, "test": open(f).read(), "output_tail": out[-1500:]}
+    finally:
+        shutil.rmtree(d, ignore_errors=True)
+
+
+def _repo_root(repo):
+    # --repo may point at a scratch dir that only holds src/: overlay it on /repo for native runs
+    return repo
 
 
 def run(prop, tier, repo, seed, status, lines, ev, only_units=None):
+    if prop == "C17" and (not only_units or "permission" in only_units):
+        try:
+            status, lines, ev = c17_tables(repo, status, lines, ev)
+        except Undecided as e:
+            lines.append("UNDECIDED: permission tables: %s" % e)
+            if status == 0:
+                status = 2
     return status, lines, ev
